@@ -77,6 +77,29 @@ func onceBody(c *Checker, rule string, fn *ssa.Function) *ssa.Function {
 	c.decide(nDo == 1 && body != nil && okOuter, rule, name+"|once", fn.Pos(),
 		"the only effectful statement is closeOnce.Do(closure)",
 		fmt.Sprintf("Close is not a single sync.Once.Do(closure): Do calls=%d, other effect outside the once body: %s", nDo, offender))
+	// ... and it is reached by every call: a Close that can return without having gone through Do
+	// (a "fast path" on quit, say) returns while a shutdown started elsewhere is still in progress
+	if nDo == 1 {
+		bad := ""
+		allInstrs(fn, func(in ssa.Instruction) {
+			ret, ok := in.(*ssa.Return)
+			if !ok || ret.Block().Comment == "recover" {
+				return
+			}
+			if pathFromEntry(fn, ret, func(x ssa.Instruction) bool {
+				ci, ok := x.(ssa.CallInstruction)
+				if !ok {
+					return false
+				}
+				sc := ci.Common().StaticCallee()
+				return sc != nil && isMethod(sc, "sync", "Once", "Do")
+			}) {
+				bad = c.w.pos(instrPos(ret))
+			}
+		})
+		c.decide(bad == "", rule, name+"|every call goes through the once", fn.Pos(), "no return is reachable without passing closeOnce.Do",
+			"Close can return at "+bad+" without passing closeOnce.Do: a caller that overlaps a shutdown in progress is told the connection is closed while its goroutines, context and FIN are still live")
+	}
 	// a thin once body that only delegates to one helper of the same package (`returnErr = c.shutdown()`):
 	// the helper is the effective body
 	if body != nil {
